@@ -119,7 +119,27 @@ def net_var(u, vol_index):
     return {"vol": v, "vol_units": ("µm", "s", "molecule"), "shift": 0}
 
 
-def build_system(grid, env, chem, nspecies, u, var=None, net=0):
+# state alphabet: 0 = distinct primes (integers); 1 = dyadic fractions mixed with integer cells (0.25, 0.5, 1.75, 7.75,
+# 7, 1.375, 1.625, 17, ...); 2 = every cell below 1 (odd/128); 3 = default state generated from fractional densities
+# (state=None; 0.3 / 1.25 / 0.7 molecule/µm3 per environment for A, 0.55 for B, 0.15 for C).  All pairwise distinct.
+DENS = [{"a": 0.3, "b": 1.25, "c": 0.7}, {"a": 0.55, "b": 0.55, "c": 0.55}, {"a": 0.15, "b": 0.15, "c": 0.15}]
+STATE_KINDS = ("primes", "dyadic fractions mixed with integers", "all cells below 1", "default state from fractional densities")
+
+
+def state_values(kind, k, shift=0):
+    """k state numbers (in the system's quantity unit) of the state alphabet."""
+    if kind == 0:
+        return [float(x) for x in PRIMES[shift:shift + k]]
+    if kind == 1:
+        head = [0.25, 0.5, 1.75, 7.75]
+        tail = [PRIMES[j + 3] / 8.0 if j % 3 else float(PRIMES[j + 3]) for j in range(k + shift)]
+        return (head + tail)[shift:shift + k]
+    if kind == 2:
+        return [(2 * (j + shift) + 1) / 128.0 for j in range(k)]
+    raise ValueError(kind)
+
+
+def build_system(grid, env, chem, nspecies, u, var=None, net=0, state_kind=0):
     """The fine system of a case and its reference description (SI).  var (history family) may override the
     cell volume ("vol", "vol_units") and shift the window of primes used as state ("shift")."""
     w, h, d = grid
@@ -129,12 +149,15 @@ def build_system(grid, env, chem, nspecies, u, var=None, net=0):
     if var is not None:
         cfg = dict(cfg, vol=var["vol"], vol_units=tuple(var["vol_units"]))
         shift = int(var.get("shift", 0))
-    species = [Species("A", D={"a": "2 µm2/s", "b": "3 µm2/s", "c": "0.5 µm2/s"}, units_system=_us(cfg["net"]))]
+    def dens(j):
+        return {e: "%r molecule.µm-3" % v for e, v in DENS[j].items()}
+    species = [Species("A", D={"a": "2 µm2/s", "b": "3 µm2/s", "c": "0.5 µm2/s"}, density=dens(0),
+                       units_system=_us(cfg["net"]))]
     reactions = []
     if nspecies >= 2:
-        species.append(Species("B", D="5 µm2/s", units_system=_us(cfg["net"])))
+        species.append(Species("B", D="5 µm2/s", density=dens(1), units_system=_us(cfg["net"])))
     if nspecies >= 3:
-        species.append(Species("C", D="1.5 µm2/s", units_system=_us(cfg["net"])))
+        species.append(Species("C", D="1.5 µm2/s", density=dens(2), units_system=_us(cfg["net"])))
     if nspecies >= 2:
         nd = NETS[net]
         if nd["species"] > nspecies:
@@ -143,13 +166,20 @@ def build_system(grid, env, chem, nspecies, u, var=None, net=0):
     network = RDNetwork(species=species, reactions=reactions, environments=["a", "b", "c"],
                         units_system=_us(cfg["net"]))
     space = RDGridSpace(w=w, h=h, d=d, cell_env=list(env), cell_vol=cfg["vol"], units_system=_us(cfg["space"]))
-    vals = PRIMES[shift:shift + nspecies * n]
-    state = list(vals) if cfg["state_units"] is None else UnitArray(list(vals), cfg["state_units"])
-    system = RDSystem(network, space, state=state, chemostats=list(chem), units_system=_us(cfg["sys"]))
     vnum = float(str(cfg["vol"]).split()[0])
     v_si = vnum * float(si.si_scale(cfg["vol_units"], (3, 0, 0)))
-    qsys = cfg["sys"] if cfg["state_units"] is None else ("m", "s", cfg["state_units"])
-    q_si = float(si.si_scale(qsys, (0, 0, 1)))
+    if state_kind == 3:
+        # the documented default state: density of the cell's environment x cell volume
+        state = None
+        v_um3 = v_si / 1e-18
+        vals = [DENS[s_][("a", "b", "c")[env[i]]] * v_um3 for s_ in range(nspecies) for i in range(n)]
+        q_si = 1.0                     # molecules
+    else:
+        vals = state_values(state_kind, nspecies * n, shift)
+        state = list(vals) if cfg["state_units"] is None else UnitArray(list(vals), cfg["state_units"])
+        qsys = cfg["sys"] if cfg["state_units"] is None else ("m", "s", cfg["state_units"])
+        q_si = float(si.si_scale(qsys, (0, 0, 1)))
+    system = RDSystem(network, space, state=state, chemostats=list(chem), units_system=_us(cfg["sys"]))
     ref = {"v_si": v_si,
            "state_si": [[vals[s * n + i] * q_si for i in range(n)] for s in range(nspecies)],
            "chem": [[int(chem[s * n + i]) for i in range(n)] for s in range(nspecies)]}
@@ -166,9 +196,10 @@ def _fingerprint(system):
 def _get_system(case, cache):
     net = int(case.get("net", 0))
     var = net_var(case["units"], case["vol"]) if case.get("vol") is not None else None
+    sk = int(case.get("state", 0))
     key = (tuple(case["grid"]), tuple(case["env"]), tuple(case["chem"]), case["nspecies"], case["units"], net,
-           case.get("vol"))
-    args = (case["grid"], case["env"], case["chem"], case["nspecies"], case["units"], var, net)
+           case.get("vol"), sk)
+    args = (case["grid"], case["env"], case["chem"], case["nspecies"], case["units"], var, net, sk)
     if cache is None:
         return build_system(*args), None, key
     if key not in cache:
@@ -652,10 +683,10 @@ MOD = __name__
 # system variants of one grid layout (w, h, d): other cell volume / unit systems / environment map / state
 HIST_VARIANTS = [
     {"units": 0, "vol": 8, "vol_units": ("µm", "s", "molecule"), "env": "uniform", "shift": 0},
-    {"units": 0, "vol": 27, "vol_units": ("µm", "s", "molecule"), "env": "two", "shift": 5},
+    {"units": 0, "vol": 27, "vol_units": ("µm", "s", "molecule"), "env": "two", "shift": 5, "state": 1},
     {"units": 1, "vol": 8e9, "vol_units": ("nm", "ms", "mol"), "env": "three", "shift": 0},     # = 8 µm3, other unit
-    {"units": 1, "vol": 1e9, "vol_units": ("nm", "ms", "mol"), "env": "uniform", "shift": 11},
-    {"units": 2, "vol": "64 µm3", "vol_units": ("µm", "s", "molecule"), "env": "uniform", "shift": 3},
+    {"units": 1, "vol": 1e9, "vol_units": ("nm", "ms", "mol"), "env": "uniform", "shift": 11, "state": 2},
+    {"units": 2, "vol": "64 µm3", "vol_units": ("µm", "s", "molecule"), "env": "uniform", "shift": 3, "state": 3},
     {"units": 2, "vol": "8 µm3", "vol_units": ("µm", "s", "molecule"), "env": "two", "shift": 0},
     {"units": 1, "vol": 8, "vol_units": ("nm", "ms", "mol"), "env": "uniform", "shift": 2},      # same number as variant 0
 ]
@@ -685,7 +716,7 @@ def _hist_system(case, v):
     w, h, d = case["grid"]
     n = w * h * d
     env = env_map(var["env"], n)
-    return build_system(case["grid"], env, chem_rich(2, n), 2, var["units"], var), env
+    return build_system(case["grid"], env, chem_rich(2, n), 2, var["units"], var, 0, int(var.get("state", 0))), env
 
 
 def _summarize(fn, obj):
@@ -865,15 +896,8 @@ def _eval_hist(case, cache):
             out.append(("C16:history:%s:valid-map-rejected:%s" % (fn, sm["exc"].split(":")[0]),
                         "%s: map %s raised %s" % (tag, m, sm["exc"])))
         else:
-            vnum = float(str(var["vol"]).split()[0])
-            v_si = vnum * float(si.si_scale(tuple(var["vol_units"]), (3, 0, 0)))
-            cfg = UNITS[var["units"]]
-            qsys = cfg["sys"] if cfg["state_units"] is None else ("m", "s", cfg["state_units"])
-            q_si = float(si.si_scale(qsys, (0, 0, 1)))
-            vals = PRIMES[var["shift"]:var["shift"] + 2 * n]
-            chem = chem_rich(2, n)
-            R = cg.coarse(w, h, d, v_si, env, [[vals[s_ * n + i] * q_si for i in range(n)] for s_ in range(2)],
-                          [[chem[s_ * n + i] for i in range(n)] for s_ in range(2)], m)
+            (_sys, ref_), _env = _hist_system(case, v)      # only builds the input (no coarse-graining in-process)
+            R = cg.coarse(w, h, d, ref_["v_si"], env, ref_["state_si"], ref_["chem"], m)
             info["evaluations"] += _compare_summary(sm, R, 2, fn, tag, R["cell_edge"] * (w + h + d), out)
         # -- against the same input in a pristine process
         key = (tuple(case["grid"]), fn, tuple(m), v)
@@ -1206,7 +1230,7 @@ def _labels(m, extra=()):
 
 
 def _sp(name, sub, grid, labels, envs=("uniform", "two", "three"), chems="rich", nspecies=2, units=(0,),
-        maplen=None, data_units=(0,), engine=False):
+        maplen=None, data_units=(0,), engine=False, state=0):
     w, h, d = grid
     n = w * h * d
     L = maplen if maplen is not None else n
@@ -1218,7 +1242,7 @@ def _sp(name, sub, grid, labels, envs=("uniform", "two", "three"), chems="rich",
         size *= x
     return {"name": name, "sub": sub, "grid": list(grid), "labels": labels, "envs": list(envs), "chems": chems,
             "nspecies": nspecies, "units": list(units), "maplen": L, "data_units": list(data_units), "dims": dims,
-            "size": size, "engine": engine}
+            "size": size, "engine": engine, "state": state}
 
 
 def decode(sp, idx):
@@ -1253,6 +1277,8 @@ def decode(sp, idx):
         case["map"] = m
     if sp["sub"] == "unc":
         case["data_units"] = sp["data_units"][idu]
+    if sp.get("state"):
+        case["state"] = sp["state"]
     return case
 
 
@@ -1488,6 +1514,27 @@ def _spaces(tier, seed=0):
     sp += _hist_spaces(T)
     sp += _script_spaces(T, seed)
     sp += _net_spaces(T)
+    # -- fractional amounts -----------------------------------------------------------------------------------
+    for sk in (1, 2, 3):
+        nm = STATE_KINDS[sk]
+        sp.append(_sp("cg-frac 1-D 3 cells, state = %s: all maps {-1..2}^3 x 3 environment maps x 3 unit configurations" % nm,
+                      "cg", (3, 1, 1), _labels(2), units=(0, 1, 2), state=sk))
+        if T:
+            sp.append(_sp("cg-frac 2x2, state = %s: all maps {-1..3}^4 x 3 environment maps x 3 unit configurations" % nm,
+                          "cg", (2, 2, 1), _labels(3), units=(0, 1, 2), state=sk))
+            sp.append(_sp("cg-frac 3x2, state = %s: all maps {-1,0,1}^6 x 3 environment maps" % nm,
+                          "cg", (3, 2, 1), _labels(1), state=sk))
+            sp.append(_sp("cg-frac 2x2x2, state = %s: all maps {-1,0}^8 x 3 environment maps x unit configurations {0, 1}" % nm,
+                          "cg", (2, 2, 2), _labels(0), units=(0, 1), state=sk))
+        else:
+            sp.append(_sp("cg-frac 2x2, state = %s: all maps {-1,0,1}^4 x 3 environment maps x unit configurations {0, 1}" % nm,
+                          "cg", (2, 2, 1), _labels(1), units=(0, 1), state=sk))
+        sp.append(_sp("simcg-frac 3x1x1, state = %s: Euler with cgmap, valid maps among {-1..2}^3, uniform environment" % nm,
+                      "simcg", (3, 1, 1), _labels(2), envs=("uniform",), engine=True, state=sk))
+        sp.append(_sp("ident-frac 2x2x1, state = %s: identity map vs plain Euler x 3 environment maps x unit configurations {0, 1}" % nm,
+                      "ident", (2, 2, 1), None, chems="none+rich", units=(0, 1), engine=True, state=sk))
+    sp.append(_sp("rep-frac 3x1x1, state = %s: 3 calls on the SAME objects, valid maps among {-1..2}^3 x {uniform, two}"
+                  % STATE_KINDS[1], "rep", (3, 1, 1), _labels(2), envs=("uniform", "two"), state=1))
     # -- repeated calls on the same input objects --------------------------------------------------------------
     repf = [((3, 1, 1), 2, ("uniform", "two")), ((2, 2, 1), 3, ("uniform", "two"))]
     if T:
